@@ -13,18 +13,19 @@ UNITS = {
 PROPS = {
     "C17": dict(
         level="exploration",
-        technique="property-based testing (rapid): generated GetOne/Block/clock/cloud histories against a reference cache view and a per-policy validity predicate; caller-slice aliasing check; concurrent rounds under the race detector; harness-owned schedules (the fake describe is a gate: held lookups, cancelled waiters, Block, release order) followed by exact sequential probes; the pod controller's real pod-networks annotation path (decoder + ReconcilePod.ParsePodNetworksFromAnnotation + real SwitchPool) checked per network against its own list and policy; the pod-networking controller as a further user of the one shared SwitchPool (real ReconcilePodNetworking.Reconcile over a controller-runtime fake client, interleaved with selections and Block); the daemon ENI factory's real CreateNetworkInterface retry loop (real SwitchPool, fake OpenAPI with stale reported counts and IpNotEnough/QuotaExceeded answers, eni_create backoff shortened through backoff.OverrideBackoff) with every create request checked against the cache view",
+        technique="property-based testing (rapid): generated GetOne/Block/clock/cloud histories against a reference cache view and a per-policy validity predicate; caller-slice aliasing check; concurrent rounds under the race detector; harness-owned schedules (the fake describe is a gate: held lookups, cancelled waiters, Block, release order) followed by exact sequential probes; the pod controller's real pod-networks annotation path (decoder + ReconcilePod.ParsePodNetworksFromAnnotation + real SwitchPool) checked per network against its own list and policy, followed by the real createENI against a cloud that refuses creates on an exhausted vSwitch (IpNotEnough / QuotaExceeded) so that the controller's own Block is part of the history; the pod-networking controller as a further user of the one shared SwitchPool (real ReconcilePodNetworking.Reconcile over a controller-runtime fake client, interleaved with selections and Block); the daemon ENI factory's real CreateNetworkInterface retry loop (real SwitchPool, fake OpenAPI with stale reported counts and IpNotEnough/QuotaExceeded answers, eni_create backoff shortened through backoff.OverrideBackoff) with every create request checked against the cache view",
         rule="histories of GetOne/Block/advance-clock/cloud-change over 1-3 caller-owned candidate lists (0-8 ids, duplicates, unknown ids) drawn by rapid; "
              "non-trivial = some GetOne saw >= 2 distinct eligible candidates, or a candidate with a live blocked entry, or took the zone fallback; "
              "concurrent rounds: non-trivial = >= 2 goroutines overlapped on one shared slice with >= 2 possibly eligible candidates or a Block; "
              "gated schedules (scripts of start-selection[+Block] / cancel-context / release-held-describe over 1-3 vSwitches, describe calls held by a generated arrival pattern): non-trivial = a context was cancelled while a describe was held, or a Block completed while a describe was still held; "
-             "pod-networks histories (pods with 1-4 networks, each with its own candidate list and policy ordered/most/random/unset, free-count changes, Block of a vSwitch a previous pod got): non-trivial = a pod with >= 2 networks one of which has >= 2 distinct eligible candidates; "
+             "pod-networks histories (pods with 1-4 networks, each with its own candidate list and policy ordered/most/random/unset, optionally continued by createENI where vSwitches whose reported count is stale refuse the create as exhausted; free-count changes, Block of a vSwitch a previous pod got): non-trivial = a pod with >= 2 networks one of which has >= 2 distinct eligible candidates; "
              "shared-pool histories (GetOne / Block / cloud changes / 'PodNetworking pn-k listing ids [...] is created, edited or re-synced' through the real reconciler, one pool with ttl 10m): non-trivial = a PodNetworking listing a blocked vSwitch is synced, or a selection after a sync sees a blocked candidate; "
              "factory histories (candidate list, policy, zone, 1-5 backoff rounds; per vSwitch a reported count and whether create answers exhausted and with which code; CreateNetworkInterface calls, changes of reported count/exhaustion between calls, an occasional non-retryable create error): non-trivial = a create request was answered exhausted while >= 2 distinct candidates were eligible; "
              "distinct = distinct scenario hash",
         assumptions=[
             "client.VPC is a fake that returns VSwitchId equal to the requested id, a fixed zone per id and the current free count, or an error",
             "the cache clock is a fake (cache.NewLRUExpireCacheWithClock); the TTL is an odd number of half units and the clock moves by whole units, so the instant now == expiry is never sampled",
+            "every fake answers DescribeVSwitchByID as the real client does (pkg/aliyun/client/vsw_default.go): the id is a filter; no match = not found; an EMPTY id = no filter = the first vSwitch of the account, a foreign one in zone-0 with free addresses",
             "cache capacity (128) is far above the id universe (<= 9): LRU eviction of a blocked entry is out of scope",
             "factory: a successful create is followed by a refused attach (the scenario ends there; attach, metadata service and the InUse wait are not part of C17); the factory's SwitchPool uses the real clock with ttl 10m, nothing expires within a case",
             "a held fake describe returns the context's error when the context it was called with is cancelled (as an SDK call does)",
